@@ -1,6 +1,7 @@
 package rules
 
 import (
+	"go/constant"
 	"go/token"
 	"strings"
 
@@ -35,6 +36,12 @@ func c06(w *core.World, r *core.Report) {
 
 	r.Rule("R06.7", "a cache is adopted under one of the source's ids only when it holds data written under that id", 2)
 	ruleCacheAdoption(w, r)
+
+	r.Rule("R06.8", "the disk cache re-reads its directory whenever a run id is (re)confirmed", 2)
+	ruleCacheRefreshed(w, r)
+
+	r.Rule("R06.9", "the in-memory resume position gets a run id only together with the offset that belongs to it", 1)
+	ruleInMemResumePoint(w, r)
 }
 
 func rulePsyncWire(w *core.World, r *core.Report) {
@@ -612,4 +619,181 @@ func isLenZero(c core.Cmp) bool {
 	}
 	z := func(v ssa.Value) bool { k, ok := core.ConstInt(v); return ok && k == 0 }
 	return (isLen(c.X) && z(c.Y)) || (isLen(c.Y) && z(c.X))
+}
+
+
+// ---------------------------------------------------------------- R06.8 the disk cache's picture of its directory is refreshed at every (re)connection
+
+// ruleCacheRefreshed: the in-memory data set of the disk cache is published
+// when a transfer starts (a snapshot entry exists from the first byte on) and
+// is corrected only by re-reading the directory. Every (re)connection goes
+// through SetRunId; it may report success only after the directory was read
+// again, otherwise a snapshot whose transfer broke stays "cached" and the
+// source is asked to continue behind data nobody holds.
+func ruleCacheRefreshed(w *core.World, r *core.Report) {
+	if f := fn(w, r, "(*pkg/store.Storer).SetRunId"); f != nil {
+		bad := ""
+		var pos token.Pos = f.Pos()
+		n := 0
+		isReload := func(v ssa.Value) bool {
+			c, ok := v.(*ssa.Call)
+			if !ok {
+				return false
+			}
+			nm := core.ResolveCall(c).Name
+			return nm == "(*pkg/store.Storer).newRunId" || nm == "(*pkg/store.Storer).initDataSet"
+		}
+		okEnum := core.EnumPathsN(f.Blocks[0], 0, 20000, core.Unroll, func(p *core.Path) {
+			ret, ok := p.End.(*ssa.Return)
+			if !ok || len(ret.Results) != 1 || ret.Parent() != f {
+				return
+			}
+			rv := p.Resolve(ret.Results[0])
+			if isReload(rv) {
+				n++
+				return
+			}
+			if isnil, known := p.IsNil(rv); known && !isnil {
+				return // an error
+			}
+			if !core.IsNilConst(rv) {
+				if _, isCall := rv.(*ssa.Call); isCall {
+					return // the error of a failed step, handed up
+				}
+			}
+			n++
+			for _, in := range p.Instrs {
+				if v, isV := in.(ssa.Value); isV && isReload(v) {
+					return
+				}
+			}
+			bad, pos = "SetRunId reports success without re-reading the cache directory: the data set kept in memory (which lists a snapshot from the moment its transfer starts) is then trusted across a broken transfer, and the next connection continues behind a snapshot that does not exist", ret.Pos()
+		})
+		if !okEnum {
+			r.Undecided("Storer.SetRunId/reload-on-success", f.Pos(), "too many paths")
+		} else {
+			r.Check(bad == "" && n > 0, "Storer.SetRunId/reload-on-success", pos, "%s (successful paths=%d)", bad, n)
+		}
+	}
+	if f := fn(w, r, "(*pkg/store.Storer).newRunId"); f != nil {
+		bad := ""
+		var pos token.Pos = f.Pos()
+		n := 0
+		okEnum := core.EnumPathsN(f.Blocks[0], 0, 20000, core.Unroll, func(p *core.Path) {
+			ret, ok := p.End.(*ssa.Return)
+			if !ok || len(ret.Results) != 1 || ret.Parent() != f || !pathNil(p, ret.Results[0]) {
+				return
+			}
+			n++
+			for _, in := range p.Instrs {
+				if c, isC := in.(*ssa.Call); isC && core.ResolveCall(c).Name == "(*pkg/store.Storer).initDataSet" {
+					return
+				}
+			}
+			// no id (empty, or the initial marker): there is no directory to read
+			if len(f.Params) == 2 {
+				id := ssa.Value(f.Params[1])
+				isId := func(v ssa.Value) bool { return v == id }
+				if p.Holds(token.EQL, isId, isConstStr("")) || p.Holds(token.EQL, isId, isConstStr("?")) {
+					return
+				}
+			}
+			// the id was cleared: nothing to read
+			for _, in := range p.Instrs {
+				if c, isC := in.(*ssa.Call); isC && core.ResolveCall(c).Name == "(*pkg/store.Storer).resetDataSet" {
+					return
+				}
+			}
+			bad, pos = "newRunId succeeds without reading the directory of the id it switched to", ret.Pos()
+		})
+		if !okEnum {
+			r.Undecided("Storer.newRunId/reads-directory", f.Pos(), "too many paths")
+		} else {
+			r.Check(bad == "" && n > 0, "Storer.newRunId/reads-directory", pos, "%s (successful paths=%d)", bad, n)
+		}
+	}
+}
+
+// ---------------------------------------------------------------- R06.9 the in-memory resume position
+
+// ruleInMemResumePoint: with resume-from-breakpoint off the target's resume
+// position lives in RedisOutput.checkpointInMem. A fresh output must report
+// "no position" (empty run id) so that the first connection takes a snapshot;
+// a run id recorded without the offset it belongs to reads as "offset 0 of
+// the current history" and is answered with PSYNC <id> 1.
+func ruleInMemResumePoint(w *core.World, r *core.Report) {
+	groups := 0
+	for _, f := range w.Funcs() {
+		if f.Pkg == nil || !strings.HasSuffix(f.Pkg.Pkg.Path(), "/syncer") {
+			continue
+		}
+		var runId, offset ssa.Value
+		var pos token.Pos
+		touched := false
+		underCp := func(a ssa.Value) bool {
+			fa, ok := a.(*ssa.FieldAddr)
+			return ok && core.FieldName(fa) == "checkpointInMem"
+		}
+		record := func(field string, v ssa.Value, at token.Pos) {
+			switch field {
+			case "RunId":
+				runId, pos = v, at
+			case "Offset":
+				offset = v
+			}
+		}
+		for _, in := range core.OwnInstrs(f) {
+			st, ok := in.(*ssa.Store)
+			if !ok {
+				continue
+			}
+			if fa, isFa := st.Addr.(*ssa.FieldAddr); isFa && underCp(fa.X) {
+				touched = true
+				record(core.FieldName(fa), st.Val, st.Pos())
+				continue
+			}
+			if underCp(st.Addr) {
+				touched = true
+				pos = st.Pos()
+				// the whole record: where its fields come from
+				src := core.Unwrap(st.Val)
+				if ld, isLd := src.(*ssa.UnOp); isLd && ld.Op == token.MUL {
+					for _, in2 := range core.OwnInstrs(f) {
+						st2, ok := in2.(*ssa.Store)
+						if !ok {
+							continue
+						}
+						if fa, isFa := st2.Addr.(*ssa.FieldAddr); isFa && fa.X == ld.X {
+							record(core.FieldName(fa), st2.Val, st.Pos())
+						}
+					}
+					if _, isAlloc := ld.X.(*ssa.Alloc); !isAlloc {
+						runId, offset = ld, ld // a record built elsewhere: both fields travel together
+					}
+				} else {
+					runId, offset = src, src
+				}
+			}
+		}
+		if !touched {
+			continue
+		}
+		groups++
+		idSet := runId != nil
+		if c, isC := runId.(*ssa.Const); isC && c.Value != nil && constant.StringVal(c.Value) == "" {
+			idSet = false
+		}
+		offSet := offset != nil
+		if _, isC := offset.(*ssa.Const); isC {
+			offSet = false
+		}
+		name := shortName(core.FuncName(f))
+		if f.Parent() != nil {
+			name = shortName(core.FuncName(f.Parent())) + "$closure"
+		}
+		r.Check(!idSet || offSet, name+"/in-memory-position-id-with-offset", pos, "the in-memory resume position is given a run id here but no offset: a position 'offset 0 under the source's current id' makes the next connection ask for PSYNC <id> 1 instead of taking the snapshot a fresh target needs")
+	}
+	if groups == 0 {
+		r.Fail("in-memory-position-id-with-offset", token.NoPos, "no writer of the in-memory resume position found")
+	}
 }
